@@ -175,13 +175,33 @@ def combo_decorations(spec):
 # ------------------------------------------------------------------------------------------------
 # building the real pipeline
 # ------------------------------------------------------------------------------------------------
+def make_dataclass(tag, params, sigdef, hook=None):
+    """a DATACLASS used as the function (PipeFunc supports them: the fields are the parameters, field defaults the signature
+    defaults): constructing it logs the call like a term function, and the instance prints and compares as the term"""
+    import dataclasses
+
+    def post(self):
+        args = ",".join(terms.T(getattr(self, p)) for p in params)
+        terms.log_call(tag, args)
+        if hook is not None:
+            hook(tag, {p: getattr(self, p) for p in params})
+        object.__setattr__(self, "_term", f"{tag}({args})")
+
+    fields = [(p, str) if p not in sigdef else (p, str, dataclasses.field(default=sigdef[p])) for p in params]
+    cls = dataclasses.make_dataclass(tag, fields, eq=False, namespace={
+        "__post_init__": post, "__str__": lambda self: self._term, "__repr__": lambda self: self._term,
+        "__eq__": lambda self, other: str(self) == str(other), "__hash__": lambda self: hash(str(self))})
+    cls.__module__ = __name__
+    return cls
+
+
 def build_funcs(spec, *, hook=None, cache=None, extra: dict | None = None) -> list[PipeFunc]:
     out = []
     for i, f in enumerate(spec["funcs"]):
         ren = f.get("ren", {})
         orig_params = [ren.get(p, p) for p in f["params"]]
         sigdef = {ren.get(p, p): v for p, v in f.get("sigdef", {}).items()}
-        fn = terms.make_function(f.get("tag", f["name"]), orig_params, len(f["outs"]), sig_defaults=sigdef, hook=hook,
+        fn = make_dataclass(f.get("tag", f["name"]), orig_params, sigdef, hook) if f.get("dataclass") else terms.make_function(f.get("tag", f["name"]), orig_params, len(f["outs"]), sig_defaults=sigdef, hook=hook,
                                  returns_none=bool(f.get("none")), dict_keys=list(f["outs"]) if f.get("picker") else None)
         orig_outs = [ren.get(o, o) for o in f["outs"]]
         kw = {}
